@@ -231,6 +231,7 @@ type c33Track struct {
 
 	// filled while writing
 	accepted       [][]byte
+	live           [][]byte // the slices that were handed to WriteRTP (caller-owned: may have been overwritten since)
 	samples        []int
 	granuleUnknown bool
 }
@@ -245,7 +246,27 @@ type c33Case struct {
 	Mode   string // single-newwith-plain | single-newwith-seekable | single-file | multi-plain | multi-seekable | multi-file
 	Tracks []*c33Track
 	Ops    []c33Op
-	wopts  []oggwriter.WriterOption
+	// Buf is the caller's buffer discipline. The payload slice handed to WriteRTP belongs to the caller again as soon as
+	// WriteRTP has returned: "fresh" never touches it again, "scribble" overwrites every payload right after its WriteRTP
+	// returned (pooled buffer handed back), "reuse" is a receive loop with ONE wire buffer and ONE rtp.Packet for all
+	// packets of all tracks (header+payload marshalled into the buffer, rtp.Packet.Unmarshal aliases it), overwritten
+	// once more before Close.
+	Buf      string
+	Scribble string // what the caller writes over a buffer it owns again: complement | zero | random
+	wopts    []oggwriter.WriterOption
+}
+
+func (c *c33Case) scribble(r *kit.Rand, b []byte) {
+	switch c.Scribble {
+	case "complement":
+		for k := range b {
+			b[k] = ^b[k]
+		}
+	case "zero":
+		clear(b)
+	default:
+		copy(b, r.Bytes(len(b)))
+	}
 }
 
 func c33Size(r *kit.Rand, bigBudget *int) int {
@@ -513,13 +534,20 @@ func c33Generate(r *kit.Rand, idx int) *c33Case {
 		}
 		c.Ops = append(c.Ops, op)
 	}
+	// drawn last, so that the rest of the case is the same function of (seed, index) as before this dimension existed
+	c.Buf = kit.Pick(r, []string{"fresh", "scribble", "scribble", "reuse", "reuse"})
+	c.Scribble = kit.Pick(r, []string{"complement", "complement", "zero", "random"})
 
 	return c
 }
 
 func (c *c33Case) desc() string {
 	var sb strings.Builder
-	fmt.Fprintf(&sb, "%s tracks=%d", c.Mode, len(c.Tracks))
+	fmt.Fprintf(&sb, "%s buf=%s", c.Mode, c.Buf)
+	if c.Buf != "fresh" {
+		fmt.Fprintf(&sb, "/%s", c.Scribble)
+	}
+	fmt.Fprintf(&sb, " tracks=%d", len(c.Tracks))
 	for k, tr := range c.Tracks {
 		fmt.Fprintf(&sb, " [t%d rate=%d fam=%d ch=%d coupled=%d serialSet=%v vendor=%dB comments=%d]", k, tr.SampleRate, tr.Family, tr.Channels, tr.Coupled,
 			tr.SerialSet, len(tr.Vendor), len(tr.Comments))
@@ -626,8 +654,9 @@ func TestVerifC33(t *testing.T) {
 	run := kit.Start(t, "C33", "per case: a writer variant (single-track NewWith on a plain io.Writer / NewWith on a seekable buffer / New on a file; "+
 		"multi-track NewWriter plain / WithSeekableOutput(memory) / file), 1..4 tracks with random sample rate, channel mapping family 0/1/2/255, serial, "+
 		"vendor and comments, and a random interleaving of Opus packets (all 32 TOC configs × 4 frame-count codes, sizes 1..200 KiB weighted to the 255-byte "+
-		"and 65025-byte lacing edges; 1/4 of the cases also carry empty and malformed packets). A case is non-trivial when >= 3 data packets were accepted and "+
-		"(some packet is >= 255 bytes or >= 2 tracks are multiplexed); distinct by mode, track configs and the (track, TOC, size) op list")
+		"and 65025-byte lacing edges; 1/4 of the cases also carry empty and malformed packets), under a caller buffer discipline: payloads never touched again / "+
+		"every payload overwritten right after its WriteRTP returned / one reused receive buffer + one reused rtp.Packet for all packets, overwritten again before Close. A case is non-trivial when >= 3 data packets were accepted and "+
+		"(some packet is >= 255 bytes or >= 2 tracks are multiplexed); distinct by mode, buffer discipline, track configs and the (track, TOC, size) op list")
 	defer run.Finish()
 	if got := c33CRC(0xFFFFFFFF, []byte("123456789")); got != 0x0376E6E7 {
 		t.Fatalf("monitor CRC self-test failed: CRC-32/MPEG-2 check value %08x", got)
@@ -639,6 +668,9 @@ func TestVerifC33(t *testing.T) {
 		"as Ogg defines page_sequence_number; a page on which no packet completes may carry granule -1 (RFC 3533) and is exempt from the granule equality")
 	run.Assume("malformed Opus packets (code 3 without count byte / M=0 / > 120 ms) and empty RTP payloads are outside 'any sequence of Opus packets': they may be " +
 		"rejected or skipped, but must not corrupt the stream; WithUserComments on a track adds to the writer-level comments (documented)")
+
+	run.Assume("'the written packets' are the payload bytes at the time of the WriteRTP call; once WriteRTP has returned, the rtp.Packet and its payload buffer " +
+		"belong to the caller again and may be overwritten or reused before Close (usual io.Writer-style ownership; a receive loop with one buffer does exactly that)")
 
 	tmp := t.TempDir()
 	n := kit.N(3000, 60000)
@@ -739,12 +771,47 @@ func TestVerifC33(t *testing.T) {
 				closeFn = w.Close
 			}
 			seq := uint16(r.Intn(65536))
+			var rx []byte // "reuse": the one receive buffer
+			var rxPkt rtp.Packet
+			if c.Buf == "reuse" {
+				maxLen := 0
+				for _, op := range c.Ops {
+					maxLen = max(maxLen, len(op.Payload))
+				}
+				rx = make([]byte, 12+maxLen)
+			}
 			for k, op := range c.Ops {
 				tr := c.Tracks[op.Track]
 				seq++
-				pkt := &rtp.Packet{Header: rtp.Header{Version: 2, PayloadType: 111, SequenceNumber: seq, Timestamp: r.Uint32(), SSRC: tr.SSRC},
-					Payload: append([]byte(nil), op.Payload...)}
+				hdr := rtp.Header{Version: 2, PayloadType: 111, SequenceNumber: seq, Timestamp: r.Uint32(), SSRC: tr.SSRC}
+				var pkt *rtp.Packet
+				if c.Buf == "reuse" {
+					hn, merr := hdr.MarshalTo(rx)
+					if merr != nil {
+						run.Inconclusive("rtp-header-marshal-failed")
+
+						return
+					}
+					pn := copy(rx[hn:], op.Payload)
+					if uerr := rxPkt.Unmarshal(rx[:hn+pn]); uerr != nil || len(rxPkt.Payload) != len(op.Payload) {
+						run.Inconclusive("rtp-unmarshal-failed")
+
+						return
+					}
+					pkt = &rxPkt
+				} else {
+					pkt = &rtp.Packet{Header: hdr, Payload: append([]byte(nil), op.Payload...)}
+				}
+				live := pkt.Payload
 				err := write[op.Track](pkt)
+				// WriteRTP has returned: packet and payload are the caller's again
+				if c.Buf == "scribble" {
+					c.scribble(r, live)
+					pkt.Header = rtp.Header{}
+					run.Count("payload_buffers_overwritten_after_write", 1)
+				} else if c.Buf == "reuse" {
+					run.Count("payload_buffers_overwritten_after_write", 1) // by the next packet, or by the final scribble below
+				}
 				samples, valid := c33PacketSamples(op.Payload)
 				switch {
 				case op.Kind == "empty":
@@ -756,17 +823,22 @@ func TestVerifC33(t *testing.T) {
 					viol("write-error:valid-packet", fmt.Sprintf("WriteRTP rejected a well-formed Opus packet (op %d, TOC %02x, %d bytes): %v", k, op.Payload[0], len(op.Payload), err), nil)
 				case valid:
 					tr.accepted = append(tr.accepted, op.Payload)
+					tr.live = append(tr.live, live)
 					tr.samples = append(tr.samples, samples)
 				case err == nil:
 					// malformed but accepted: it is now a "written packet"; its duration is undefined, so stop checking granules of this track
 					run.Count("model_divergence", 1)
 					run.Seen("divergence", "accepted-"+op.Kind)
 					tr.accepted = append(tr.accepted, op.Payload)
+					tr.live = append(tr.live, live)
 					tr.samples = append(tr.samples, 0)
 					tr.granuleUnknown = true
 				default:
 					run.Seen("rejected", op.Kind)
 				}
+			}
+			if c.Buf == "reuse" {
+				c.scribble(r, rx) // the loop read once more (or handed the buffer back) before the writer is closed
 			}
 			if err := closeFn(); err != nil {
 				viol("close-error", fmt.Sprintf("Close failed: %v", err), nil)
@@ -802,6 +874,7 @@ func TestVerifC33(t *testing.T) {
 		}
 		run.Case(desc, nData >= 3 && (anyLong || len(c.Tracks) >= 2))
 		run.Seen("mode", c.Mode)
+		run.Seen("mode_x_buffer_discipline", c.Mode+"/"+c.Buf)
 		run.Seen("tracks", fmt.Sprint(len(c.Tracks)))
 		run.Count("data_packets", nData)
 		run.Count("output_bytes", len(out))
@@ -1008,7 +1081,23 @@ func TestVerifC33(t *testing.T) {
 			}
 			for k := 0; k < len(data) && k < len(tr.accepted); k++ {
 				if !bytes.Equal(data[k].Data, tr.accepted[k]) {
-					viol("packet-bytes", fmt.Sprintf("track %d data packet %d: read %d bytes, written %d bytes, first difference at %d", ti, k, len(data[k].Data), len(tr.accepted[k]),
+					// cause: do all differing bytes hold what the CALLER's buffer holds now (the writer kept a reference
+					// to the payload slice beyond WriteRTP instead of a copy)?
+					sig := "packet-bytes"
+					if lv := tr.live[k]; c.Buf != "fresh" && len(data[k].Data) == len(tr.accepted[k]) && len(lv) == len(tr.accepted[k]) {
+						aliased := true
+						for j, b := range data[k].Data {
+							if b != tr.accepted[k][j] && b != lv[j] {
+								aliased = false
+
+								break
+							}
+						}
+						if aliased {
+							sig = "packet-bytes:caller-buffer-retained-after-write:" + kind + ":" + sinkKind
+						}
+					}
+					viol(sig, fmt.Sprintf("track %d data packet %d: read %d bytes, written %d bytes, first difference at %d", ti, k, len(data[k].Data), len(tr.accepted[k]),
 						c33FirstDiff(data[k].Data, tr.accepted[k])), nil)
 
 					break
